@@ -124,4 +124,31 @@ Section Safety.
       & E2) & E3) & E4) & E5) & E6) & E7).
     subst. apply HPhi; auto.
   Qed.
+
+  (* write_dense as eight single-register steps of an index-parametrised invariant *)
+  Lemma write_dense_steps (R : SimdOps T) (Phi : nat -> list T -> Prop) i (l : dense T)
+        {B} (f : unit -> M T B) Q PI :
+    (forall k, k < 8 -> length (nth_reg l k) = lanes R) ->
+    i + lanes R * 8 <= length (mR m0) ->
+    (forall q r, q < 8 -> length r = length (mR m0) -> Phi (i + lanes R * q) r ->
+                 Phi (i + lanes R * S q) (splice r (i + lanes R * q) (nth_reg l q))) ->
+    triple (SafeR (Phi (i + lanes R * 8))) (f tt) Q PI ->
+    triple (SafeR (Phi i)) (bind (write_dense R i l) f) Q PI.
+  Proof.
+    intros Hlen Hb Hstep Hf.
+    apply (write_dense_bind R (Phi i) (Phi (i + lanes R * 8))); auto.
+    intros r Hr HP.
+    assert (S1 : forall q r', q < 8 -> length r' = length (mR m0) ->
+                   length (splice r' (i + lanes R * q) (nth_reg l q)) = length (mR m0)).
+    { intros q r' Hq Hr'. rewrite length_splice; [exact Hr'|]. rewrite (Hlen q Hq), Hr'. nia. }
+    replace i with (i + lanes R * 0) in HP by lia.
+    pose proof (Hstep 0 _ ltac:(lia) Hr HP) as P1. pose proof (S1 0 _ ltac:(lia) Hr) as L1.
+    pose proof (Hstep 1 _ ltac:(lia) L1 P1) as P2. pose proof (S1 1 _ ltac:(lia) L1) as L2.
+    pose proof (Hstep 2 _ ltac:(lia) L2 P2) as P3. pose proof (S1 2 _ ltac:(lia) L2) as L3.
+    pose proof (Hstep 3 _ ltac:(lia) L3 P3) as P4. pose proof (S1 3 _ ltac:(lia) L3) as L4.
+    pose proof (Hstep 4 _ ltac:(lia) L4 P4) as P5. pose proof (S1 4 _ ltac:(lia) L4) as L5.
+    pose proof (Hstep 5 _ ltac:(lia) L5 P5) as P6. pose proof (S1 5 _ ltac:(lia) L5) as L6.
+    pose proof (Hstep 6 _ ltac:(lia) L6 P6) as P7. pose proof (S1 6 _ ltac:(lia) L6) as L7.
+    exact (Hstep 7 _ ltac:(lia) L7 P7).
+  Qed.
 End Safety.
